@@ -11,6 +11,7 @@ import (
 	"os"
 	"path/filepath"
 	"testing"
+	"time"
 
 	"github.com/insomniacslk/dhcp/dhcpv4"
 )
@@ -58,5 +59,19 @@ func TestGovcReplay(t *testing.T) {
 	r, ok := recs[hw.String()]
 	if !ok || !r.IP.Equal(out.YourIPAddr) || len(recs) != 1 {
 		t.Fatalf("GOVC-REPRODUCED: after restart the bindings are %v, want %s -> %v", recs, hw, out.YourIPAddr)
+	}
+	// expiry scenario: the same client comes back a little over two seconds later and is promised a
+	// full lease again; the stored expiry must cover it (one-second resolution of the store)
+	time.Sleep(2200 * time.Millisecond)
+	resp2, _ := dhcpv4.NewReplyFromRequest(req)
+	out2, _ := h(req, resp2)
+	promisedEnd := time.Now().Add(out2.IPAddressLeaseTime(0))
+	ldb2, _ := loadDB(db)
+	recs2, err := loadRecords(ldb2)
+	if err != nil {
+		t.Fatalf("GOVC-REPRODUCED: restart on the database the server wrote fails: %v", err)
+	}
+	if r2 := recs2[hw.String()]; r2 == nil || int64(r2.expires) < promisedEnd.Unix()-1 {
+		t.Fatalf("GOVC-REPRODUCED: stored expiry %v is earlier than the end of the lease just promised (%d)", r2, promisedEnd.Unix())
 	}
 }
